@@ -63,8 +63,12 @@ Fixpoint jd_pass (v : jdvariant) (limit : nat) (eofwl : bool) (rem : list (list 
   end.
 
 (* ---- part B: the passes over a source that can be sought (a ammo per pass, nothing that does not decode) ---- *)
-(* pc: passes done, d: ammo decoded, db: the guard's "decoded at the previous rewind" *)
-Fixpoint jd_passes (fuel : nat) (v : jdvariant) (passes limit a : nat) (nonempty : bool) (pc d db : nat) : jdres * nat :=
+(* pc: passes done, d: ammo decoded, db: the guard's "decoded at the previous rewind";
+   pend: how many of the pass's ammo are handed out but not yet decoded at the moment the source reports its end -- 0 for
+   a source that reports its end on a read of its own (files, strings.Reader: everything handed out before has been
+   decoded when the next read is made); a for a source that hands ALL its data out in one read together with io.EOF
+   (MultiPassReader rewinds inside that very read, so the guard compares before any ammo of the pass is decoded). *)
+Fixpoint jd_passes (fuel : nat) (v : jdvariant) (passes limit a pend : nat) (nonempty : bool) (pc d db : nat) : jdres * nat :=
   match fuel with
   | 0 => (JdOutOfFuel, d)
   | S f =>
@@ -72,10 +76,11 @@ Fixpoint jd_passes (fuel : nat) (v : jdvariant) (passes limit a : nat) (nonempty
       else
         let d' := d + a in
         let pc' := S pc in
+        let seen := d' - pend in                                       (* what the guard reads in *decoded *)
         if negb nonempty then (JdNil, d')                              (* a source without data is not rewound *)
         else if (passes =? 0) || (pc' <? passes) then
-          if jv_guard v passes && (d' =? db) then (JdNil, d')          (* nothing decoded in this pass: no rewind *)
-          else jd_passes f v passes limit a nonempty pc' d' d'
+          if jv_guard v passes && (seen =? db) then (JdNil, d')        (* "nothing decoded in this pass": no rewind *)
+          else jd_passes f v passes limit a pend nonempty pc' d' seen
         else (JdNil, d')
   end.
 
